@@ -297,6 +297,42 @@ fn run_formula(tok: &[&str]) -> String {
     }
 }
 
+/// tokens <hex text> <ordering name:id,.. | ->  : the token sequence of the text
+fn run_tokens(tok: &[&str]) -> String {
+    let text = unhex(tok[0]);
+    let ordering: Option<Vec<NamedSymbol>> = if tok.len() > 1 && tok[1] != "-" {
+        Some(
+            tok[1]
+                .split(',')
+                .map(|p| {
+                    let mut it = p.split(':');
+                    let name = it.next().unwrap().to_string();
+                    let id: usize = it.next().unwrap().parse().unwrap();
+                    NamedSymbol { name: Rc::new(name), id }
+                })
+                .collect(),
+        )
+    } else {
+        None
+    };
+    let mut rd = io::BufReader::new(&text[..]);
+    match SymbolicBDD::tokenize(&mut rd, ordering) {
+        Err(e) => format!("err {}", e.to_string().replace(' ', "_")),
+        Ok(ts) => {
+            let parts: Vec<String> = ts
+                .iter()
+                .map(|t| match t {
+                    SymbolicBDDToken::Var(v) => format!("Var({}:{})", v.name, v.id),
+                    SymbolicBDDToken::Countable(n) => format!("Countable({})", n),
+                    SymbolicBDDToken::Reference(r) => format!("Reference({})", r),
+                    other => format!("{:?}", other),
+                })
+                .collect();
+            format!("ok {}", parts.join(" "))
+        }
+    }
+}
+
 /// set ops on BDDSet (C19): set <bits> <script>, script tokens: iA:<n> iB:<n> uAB uAA uBA nAB (intersect) cAB (complement)
 /// eA (empty) UA (universe) qA:<n> (contains) ; prints membership vectors of A and B after each step
 fn run_set(tok: &[&str]) -> String {
@@ -390,6 +426,7 @@ fn main() {
                 last
             }
             "formula" => run_formula(&tok[1..]),
+            "tokens" => run_tokens(&tok[1..]),
             "set" => run_set(&tok[1..]),
             _ => "error unknown command".to_string(),
         });
